@@ -211,27 +211,11 @@ Fixpoint segs_fail (tracks : list (Z * bool)) (pd mp : Z) (num : Z) (gs : list o
   end.
 (* ---- the durations recorded at close (mvhd header, OnSegmentComplete) against the TRUE duration of each file:
         (the end of the sample that ends last among the samples that must be in the file) - (segment start); with
-        several tracks interleaved in any order this is not the end of the sample written last. No model function. ---- *)
-(* the end of the sample that the failing call (outcome 2) was writing: formatFMP4Segment.write has counted it before
-   formatFMP4Part.write refused it ("reached maximum part size"); a drift error comes before and counts nothing *)
-Fixpoint rejected_end (tracks : list (Z * bool)) (evs : list (Z * Z * Z * Z)) (outs : list Z)
-         (pend : list (Z * (Z * Z))) : option Z :=
-  match evs, outs with
-  | (t, d, _, z2) :: er, o :: or =>
-      match lookup t pend with
-      | None => rejected_end tracks er or ((t, (d, z2)) :: pend)
-      | Some (pd, pz2) =>
-          let d' := Z.max d pd in
-          let r := rate_of tracks t in
-          if o =? 2 then Some (ts2dur pd r + ts2dur (wrapu32 (d' - pd)) r)
-          else rejected_end tracks er or ((t, (d', z2)) :: pend)
-      end
-  | _, _ => None
-  end.
+        several tracks interleaved in any order this is not the end of the sample written last; a sample that a failing
+        call was writing is not in the file and does not count. No model function. ---- *)
 Definition u32_ms (d : Z) : Z := (d / 1000000) mod 4294967296.        (* uint32(d / time.Millisecond) *)
 Definition dur_ok (hdr rep d : Z) : bool := (rep =? d) && (hdr =? u32_ms d).
-Fixpoint durs_fail (tracks : list (Z * bool)) (pd mp : Z) (gs : list oseg) (reps : list Z) (exp : list xsmp)
-         (rej : option Z) : bool :=
+Fixpoint durs_fail (tracks : list (Z * bool)) (pd mp : Z) (gs : list oseg) (reps : list Z) (exp : list xsmp) : bool :=
   match gs with
   | [] => false
   | OSeg _ sdts _ hdr ps :: r =>
@@ -240,13 +224,7 @@ Fixpoint durs_fail (tracks : list (Z * bool)) (pd mp : Z) (gs : list oseg) (reps
       let e := fold_left Z.max (map x_end used) sdts in
       match reps with
       | [] => true
-      | rep :: reps' =>
-          negb (dur_ok hdr rep (e - sdts)
-                || match r, rej with
-                   | [], Some re => dur_ok hdr rep (Z.max e re - sdts)     (* the file closed after the failed write *)
-                   | _, _ => false
-                   end)
-          || durs_fail tracks pd mp r reps' rest rej
+      | rep :: reps' => negb (dur_ok hdr rep (e - sdts)) || durs_fail tracks pd mp r reps' rest
       end
   end.
 (* recordings through Recorder + Stream (outcomes not observable): the true duration is read off the file itself -
@@ -307,7 +285,7 @@ Definition seg_spec_fail (s : stream) (o : obs) : bool :=
   | MkStream tracks pd _ mp evs, MkObs outs gs rep =>
       segs_fail tracks pd mp 0 gs (expected_written tracks evs outs [])
       || negb (Nat.eqb (length rep) (length gs))
-      || durs_fail tracks pd mp gs rep (expected_written tracks evs outs []) (rejected_end tracks evs outs [])
+      || durs_fail tracks pd mp gs rep (expected_written tracks evs outs [])
       || sync_fail false s gs
   end.
 (* the recorder run: outcomes are not observable; the files must start on a sync sample, be numbered consecutively,
